@@ -21,6 +21,7 @@ RULE = (
     "modules (qualified and from-imported), constructor calls in every module, a function whose body is planted again in "
     "clients (UseFunction), a method local (LocalToField); refactoring drawn from 5 (+ global_factory flag); non-trivial = "
     "accepted refactoring that changed >= 2 modules or rewrote >= 2 usage shapes; distinct by case hash"
+    "; client files may end in a field write without final newline; MethodObject on a function nested in a method; the class inside a module-level try/if; one-line / last-in-file functions for UseFunction"
 )
 ASSUMPTIONS = [
     "int-valued, total programs: equal stdout and exception class is behavioural equality",
